@@ -120,6 +120,15 @@ def handle (line : String) : Except String Json := do
     match binPair (← binKOfString (← getS "k")) (← getB "pif") (← getB "sp") (← getE "a") (← getE "b") with
     | none => pure (Json.arr #["none"])
     | some x => pure (Json.arr #["res", eJ x])
+  | "flat_simplify" =>
+    let gate ← getB "gate"
+    let e ← getE "e"
+    match (← getS "k") with
+    | "and" => pure (eJ (flatSimplify .and (connPairOpt true) gate e))
+    | "or" => pure (eJ (flatSimplify .or (connPairOpt false) gate e))
+    | "add" => pure (eJ (flatSimplify .add (binPair .add (← getB "pif") true) gate e))
+    | "mul" => pure (eJ (flatSimplify .mul (binPair .mul (← getB "pif") true) gate e))
+    | s => throw ("flat kind " ++ s)
   | "neg_neg" => pure (eJ (simplifyNegNeg (← getE "e")))
   | "simplify_equality" =>
     pure (eJ (simplifyEquality I SqlglotModel.Generated.C06.addInverseIsSub SqlglotModel.Generated.C06.subInverseIsAdd (← getE "e")))
@@ -127,6 +136,19 @@ def handle (line : String) : Except String Json := do
   | "simplify_coalesce" => pure (eJ (simplifyCoalesce ⟨false, ← getB "cns"⟩ (← getE "e")))
   | "simplify_parens" => pure (eJ (simplifyParens (pkOfString (← getS "p")) (← getE "e")))
   | "flatten" => pure (eJ (flatten1 (← getE "e")))
+  | "propagate_constants" =>
+    match propagateConstants (← getB "gate") (← getE "e") with
+    | some r => pure (Json.arr #["res", eJ r])
+    | none => pure (Json.arr #["conflict"])
+  | "remove_complements" =>
+    let e ← getE "e"
+    pure (Json.arr #[eJ (removeComplements (← getB "gate") (← getB "nonnull") e), Json.bool (nonNullE e)])
+  | "uniq_sort" =>
+    let order ← (← (← j.getObjVal? "order").getArr?).toList.mapM jE
+    pure (eJ (uniqSortWith order (← getB "gate") (← getE "e")))
+  | "dist_law" => pure (eJ (distLaw id (← getB "dnf") (← getE "e")))
+  | "norm_distance" => pure (Json.num (Lean.JsonNumber.fromInt (normalizationDistance (← getB "dnf") (← getE "e"))))
+  | "check_normalize" => pure (Json.bool (checkNormalize I (← getB "dnf") (← getE "a") (← getE "b")))
   | "normalized" => pure (Json.bool (normalizedM (← getB "dnf") (← getE "e")))
   | "check" => pure (Json.bool (checkStep I (← ruleOfString (← getS "rule")) (← getE "a") (← getE "b")))
   | "eval" =>
